@@ -462,6 +462,26 @@ ROUND7 = {
 }
 for _k, _v in ROUND7.items():
     CLAIMS[_k]["text"] += " " + _v
+ROUND8 = {
+ "C01": "No assertion contains work (ASSERT-effect).",
+ "C02": "The stream functions that return nothing call nothing that can fail for lack of memory.",
+ "C03": "The AES-NI key expansion loads no byte of the key beyond len (relational, through its helpers).",
+ "C04": "In the dispatcher a record taken from a queue is invoked before another is taken; a realloc result is adopted only when non-NULL.",
+ "C05": "A record taken from a queue is invoked before another is taken; a realloc result is adopted only when non-NULL.",
+ "C08": "No allocation size depends on a number parsed out of the response (taint from parsenum/strto* answers); header lines are counted by the tokenizer that extracts them.",
+ "C09": "http_findheader matches whole names; a NULL from imalloc is a failure only for a non-zero count.",
+ "C10": "The sanity check rejects for the range comparison's reason only.",
+ "C11": "Both feature configurations are analysed in both tiers; the amount handed to generate survives the conversion to its parameter type.",
+ "C12": "Every success return of elasticarray_resize follows resize(EA, nrec * reclen) or an equality test of the byte count.",
+ "C13": "No return of ptrheap_increase/decrease/increasemin without the sift, unless the position provably has no children (parent).",
+ "C16": "The bounds-less PARSENUM forms hand each conversion the widest range there is.",
+ "C17": "sock_addr_deserialize bounds no decoded field beyond what the exact-length test implies.",
+ "C18": "optarg is only assigned one of its three sources and never moved afterwards.",
+ "C19": "No va_list is handed on after another call has walked it; asprintf's output is complete wherever it is used (ghost for the space of the latest writing pass).",
+ "C20": "Key bytes stored directly into an object count as key material for the wipe-before-free typestate.",
+}
+for _k, _v in ROUND8.items():
+    CLAIMS[_k]["text"] += " " + _v
 for _k in CLAIMS:
     CLAIMS[_k]["text"] += " Differentially: a function that failed only when a callee failed still does."
 
